@@ -447,6 +447,27 @@ def _check_property(prop, tier, seed, mine, scratch, findings, t0):
         seen_f.add(fid)
         out_lines.append('KNOWN-FINDING: property=%s %s' % (prop, listed.get('line', '').split(' ', 2)[-1]))
 
+    structural = None
+    if prop == 'C19':
+        verdict, msg = structural_c19()
+        structural = {'check': 'from_tzif returns only validated data (syntactic check of /repo/src/local/timezone.rs)', 'verdict': verdict, 'detail': msg}
+        if verdict == 'violation':
+            nviol += 1
+            rp = os.path.join(VERIF, 'replays', 'C19-structural-from_tzif.json')
+            rec = {'property': 'C19', 'obligation': 'structural: from_tzif must pass its result through validate()', 'function': 'TimeZone::from_tzif',
+                   'unit': 'tz', 'variant': 'A', 'verus_output': msg, 'inputs': None}
+            try:
+                import cesearch
+                ce = cesearch.search(prop, None, None, scratch, tier)
+                if ce:
+                    rec.update(ce)
+            except Exception as ex:
+                rec['ce_search_error'] = repr(ex)
+            json.dump(rec, open(rp, 'w'), indent=1)
+            out_lines.append('VIOLATION property=C19 replay=%s%s' % (rp, '' if rec.get('inputs') else ' no-failing-input-found'))
+        elif verdict == 'undecided':
+            undecided.append('structural: ' + msg)
+
     # ---------------- evidence ----------------
     wall = time.time() - t0
     for row in fn_rows[:6]:
@@ -466,6 +487,7 @@ def _check_property(prop, tier, seed, mine, scratch, findings, t0):
             'extracted_items': sorted(items.values(), key=lambda x: (x['file'], x['name'])),
             'undecided': undecided, 'unstable': unstable, 'stability_runs': stab,
             'known_findings_printed': [l for l in out_lines if l.startswith('KNOWN-FINDING')],
+            'structural_checks': [structural] if structural else [],
             'solver_ms_total': sum((row.get('ms') or 0) for row in fn_rows),
         },
         'assumptions': sorted(assumptions),
@@ -508,6 +530,31 @@ def witness_manifests(fid):
     except Exception:
         _WITNESS[fid] = False
     return _WITNESS[fid]
+
+
+def structural_c19():
+    """from_tzif is outside Verus (iterator adapters, byte conversions). What C19 needs from it besides panic-freedom is
+    that every value it returns went through validate(): checked on the source text. Returns (verdict, message):
+    'ok' | 'violation' (no validate call at all) | 'undecided' (present, but not in the shape `x.validate()?; Ok(x)`)."""
+    sys.path.insert(0, HERE)
+    import rustscan as rs
+    p = os.path.join(REPO, 'src', 'local', 'timezone.rs')
+    try:
+        text = open(p).read()
+        items = rs.scan_items(text)
+        impl = [it for it in items if it.kind == 'impl' and it.name == 'impl TimeZone'][0]
+        fn = [it for it in rs.scan_items(text, impl.body_open + 1, impl.end - 1) if it.kind == 'fn' and it.name == 'from_tzif'][0]
+    except Exception as e:
+        return 'undecided', 'from_tzif not found (%s)' % e
+    body = text[fn.body_open:fn.end]
+    code = re.sub(r'//[^\n]*', '', body)
+    if not re.search(r'\.validate\(\)', code):
+        return 'violation', 'TimeZone::from_tzif no longer calls validate(): parsed data reaches lookups unchecked'
+    oks = re.findall(r'\bOk\(\s*(\w+)\s*\)', code)
+    m = re.search(r'(\w+)\.validate\(\)\?;\s*Ok\(\s*(\w+)\s*\)\s*\}\s*$', code.strip())
+    if m and m.group(1) == m.group(2) and len(oks) == 1 and 'return Ok' not in code:
+        return 'ok', 'from_tzif has a single Ok exit, `%s.validate()?; Ok(%s)`' % (m.group(1), m.group(2))
+    return 'undecided', 'from_tzif calls validate() but not as the only exit `x.validate()?; Ok(x)`'
 
 
 def _load_baseline():
